@@ -18,7 +18,17 @@ def check(run):
     mc = model_check(run, "array2d", "Array2D", dict(MaxW=m, MaxH=m), invariants=["Refines", "IdxInjective", "WinInRow"], edges=True)
     init = ["void", 0, 0, [], [], [], 0]
     paths, st = tour(mc["edges"], [init], run.rng, max_len=8)
-    plans = [[dict(op="Reset")] + [clean(e["op"]) for e in p] for p in paths]
+    # every third tour path runs on string elements ("" for 0: cells that print as nothing), the others on ints
+    plans = [[dict(op="Reset", ty=("string" if i % 3 == 2 else "int"))] + [clean(e["op"]) for e in p] for i, p in enumerate(paths)]
+    for (w, h) in ((1, 1), (2, 1), (3, 2), (1, 3), (3, 3)):
+        p = [dict(op="Reset", ty="string"), dict(op="NewFilled", w=w, h=h, v=0)]
+        for y in range(h):
+            for x in range(w):
+                p.append(dict(op="Set", x1=x, y1=y, v=7 + x))
+                p.append(dict(op="Set", x1=x, y1=y, v=0))
+            p.append(dict(op="Set", x1=w - 1, y1=y, v=5))
+        p += [dict(op="Clone"), dict(op="Fill", x1=0, y1=0, x2=w - 1, y2=h - 1, v=0)]
+        plans.append(p)
     # beyond the bounds: seeded larger rectangular shapes with random call sequences
     for i in range(10 if run.quick() else 120):
         w, h = run.rng.randint(0, 9), run.rng.randint(0, 9)
